@@ -189,6 +189,17 @@ def check_C01(tier, seed):
     rng = random.Random(seed)
     n = tier_n(tier, 1500, 40000)
     cases, stats = gen_histories(rng, n)
+    # recursive definitions (self-calls in and out of tail position, cond clauses without body, &optional / &rest)
+    nrec = tier_n(tier, 500, 8000)
+    for i in range(nrec):
+        g = TailGen(rng, 'f', rng.choice(['req', 'req', 'opt', 'rest']))
+        d = g.defun(rng.choice([1, 2, 3, 4]))
+        c = Case('r%d' % i, meta={'texts': [render(d)]})
+        c.eval('(setq g 0) ' + render(d))
+        for nn in rng.sample([0, 1, 2, 3, 5, 8, 13], 4):
+            c.eval('(f %d 0)' % nn); c.vars(['n', 'acc', 'm', 'k', 'g'])
+        cases.append(c)
+    stats['recursive_definitions'] = nrec
     impl, model, dis = differential(res, cases)
     nontriv = set()
     for c in cases:
@@ -199,7 +210,7 @@ def check_C01(tier, seed):
     res.cov['distinct_nontrivial'] = len(nontriv)
     res.cov['rule'] = ('random histories (1-4 texts: definitions, then programs) over the core forms from a typed grammar, '
                        'sub-expressions wrapped in (tick ID e); implementation and extracted Coq model compared on value/error class, '
-                       'tick log and all six program variables after every text; non-trivial = distinct (outcome, tick log) with a non-empty log')
+                       'tick log and all six program variables after every text; plus generated self-recursive definitions (tail and non-tail self-calls, body-less cond clauses, &optional / &rest) called with several arguments; non-trivial = distinct (outcome, tick log) with a non-empty log')
     res.cov['generator_distribution'] = stats
     res.cov['samples'] = sample_cases(cases)
     replay_known(res, 'C01')
@@ -344,6 +355,8 @@ def check_C02(tier, seed):
                     for kind in ('defun', 'lambda', 'closure', 'macro'):
                         for route in (('direct',) if kind == 'macro' else ('direct', 'funcall', 'funcall-sharp')):
                             add(g.user_callee_case(nreq, nopt, rest, argc, kind, route), 'u'); nex += 1
+                            if argc >= 2:
+                                add(g.user_callee_case(nreq, nopt, rest, argc, kind, route, atoms=True), 'ua'); nex += 1
     for _ in range(tier_n(tier, 1200, 30000)): add(g.builtin_case(), 'b')
     for _ in range(tier_n(tier, 1200, 30000)): add(g.higher_order_case(), 'h')
     for _ in range(tier_n(tier, 300, 6000)): add(g.tailrec_case(), 't')
@@ -359,7 +372,7 @@ def check_C02(tier, seed):
     res.cov['exhaustive'] = False
     res.cov['rule'] = ('exhaustive: parameter shapes (required 0..%d, &optional 0..%d, &rest 0/1) x 0..5 arguments x {defun, lambda, closure, macro} x '
                        '{direct, funcall, funcall #\\\'}; random: %d built-in/host calls and %d higher-order calls (mapcar, seq-*, sort, assoc/alist-get testfn, funcall) '
-                       'over element kinds symbol/list/number/string/quoted form; every argument is (tick i e), some read or assign a variable named like a parameter; '
+                       'over element kinds symbol/list/number/string/quoted form; every argument is (tick i e), some read or assign a variable named like a parameter; each shape also with atom-only arguments (bare variables named like parameters, constants); '
                        'callee bodies tick the list of their parameters; compared: value/error class, tick log, variables; non-trivial = distinct call transcripts with a non-empty log'
                        % (maxreq, maxopt, tier_n(tier, 1200, 30000), tier_n(tier, 1200, 30000)))
     res.cov['samples'] = sample_cases(cases[::max(1, len(cases) // 3)])
@@ -1371,6 +1384,10 @@ def check_C06(tier, seed):
         c.eval("(let ((e1 (macroexpand '%s))) (list (equal e1 (macroexpand e1)) (equal (macroexpand ''%s) ''%s)))" % (ft, ft, ft))
         # ctx 3: inside a function body, called twice
         c.ctx(3); c.eval(pre); c.eval('(defun fn () %s)' % ft); c.eval('(fn)'); c.eval('(fn)'); c.vars(obs)
+        # ctx 4: ONE form object held in a variable, expanded twice and evaluated twice: expansion and
+        # evaluation must not alter the form they are given
+        c.ctx(4); c.eval(pre); c.eval("(setq form '%s)" % ft); c.eval('(macroexpand form)'); c.eval('(macroexpand form)')
+        c.eval('(eval form)'); c.eval('(eval form)'); c.eval("(equal form '%s)" % ft)
         cases.append(c)
     impl, model, dis = differential(res, cases)
     nv = 0
@@ -1391,6 +1408,12 @@ def check_C06(tier, seed):
         f1 = obsline(ls[16])
         if why is None and (d1[0], d1[1]) != (f1[0], f1[1]) and '(inc ' not in forms[i] and 'setq' not in forms[i]:
             why = 'the form inside a function body evaluates differently from the top-level form'
+        if why is None and len(ls) >= 26:
+            x1, x2, same = core.parse_line(ls[21]), core.parse_line(ls[22]), core.parse_line(ls[25])
+            if (x1[1], x1[2]) != (x2[1], x2[2]):
+                why = 'expanding the same form object twice gives different expansions'
+            elif same[1] == 'V' and unhx(same[2]) != 't':
+                why = 'expansion or evaluation altered the form object it was given'
         distinct.add(unhx(core.parse_line(ls[12])[2])[:80] if core.parse_line(ls[12])[1] == 'V' else forms[i][:30])
         if why:
             nv += 1
@@ -1434,7 +1457,7 @@ def check_C06(tier, seed):
     res.cov['distinct_nontrivial'] = len(distinct)
     res.cov['rule'] = ('random forms (depth 1-3) using 11 user macros (defmacro with &optional/&rest, backquote templates, macros expanding to macros) and all built-in macros in arguments, bodies, '
                        'let/cond/lambda, with quoted data containing macro names; per form four contexts: eval twice; macroexpand then eval twice; expansion text + idempotence + quoted form untouched; '
-                       'inside a defun called twice. Oracle (implementation only): direct = via expansion on value, tick log and variables; (equal e (macroexpand e)); built-in macros = explicit equivalent forms. '
+                       'inside a defun called twice; one form object held in a variable expanded twice and evaluated twice (the object must stay equal to its text). Oracle (implementation only): direct = via expansion on value, tick log and variables; (equal e (macroexpand e)); built-in macros = explicit equivalent forms. '
                        'Correspondence: all transcripts equal the model')
     res.cov['samples'] = forms[:3]
     for d in res.pending:
@@ -2640,6 +2663,76 @@ def check_C20(tier, seed):
                 if nv <= 8: res.violation('api-conversion', {'ops': ops, 'op': o, 'expected': e, 'got': g_})
             if g_ != m_ and len(res.pending) < 10:
                 res.pending.append({'ops': ops, 'op': o, 'impl': g_, 'model': m_, 'why': 'differ', 'correspondence': 'Api.step_op'})
+    # the alist / plist / list helpers of the API (lists::assoc, alist_get, plist_get, length, nth, nthcdr, last)
+    # against a first-match model computed here from the values the sequence builds
+    def build(v, ops, nxt):
+        r = nxt[0]; nxt[0] += 1
+        if v is None: ops.append('nil:%d' % r)
+        elif isinstance(v, int): ops.append('int:%d:%d' % (v, r))
+        elif isinstance(v, str): ops.append('sym:%s:%d' % (hx(v), r))
+        elif isinstance(v, tuple):
+            a = build(v[0], ops, nxt); b = build(v[1], ops, nxt); ops.append('cons:%d:%d:%d' % (a, b, r))
+        else:
+            tail = build(None, ops, nxt)
+            for e in reversed(v):
+                er = build(e, ops, nxt); nr = nxt[0]; nxt[0] += 1
+                ops.append('cons:%d:%d:%d' % (er, tail, nr)); tail = nr
+            return tail
+        return r
+    def pshow(v):
+        if v is None: return 'nil'
+        if isinstance(v, (int, str)): return str(v)
+        if isinstance(v, tuple):
+            return '(%s)' % pshow(v[0]) if v[1] is None else ('(%s %s' % (pshow(v[0]), pshow(v[1])[1:]) if isinstance(v[1], (tuple, list)) and v[1] else '(%s . %s)' % (pshow(v[0]), pshow(v[1])))
+        return '(' + ' '.join(pshow(e) for e in v) + ')' if v else 'nil'
+    helper_cases = []
+    keys = ['a', 'b', 'c', 'k']
+    for _ in range(tier_n(tier, 400, 8000)):
+        al = []
+        for _ in range(rng.choice([0, 1, 2, 3, 4])):
+            x = rng.random()
+            if x < 0.7: al.append((rng.choice(keys), rng.choice([None, 1, 2, [1, 2], 'v'])))
+            elif x < 0.85: al.append(rng.choice([5, 'a']))               # not a pair: skipped
+            else: al.append((rng.choice(keys), None))
+        key = rng.choice(keys); dflt = rng.choice([None, None, 7, 'dflt'])
+        pl = []
+        for _ in range(rng.choice([0, 1, 2, 3])): pl += [rng.choice(keys), rng.choice([None, 1, [3]])]
+        ops = []; nxt = [10]
+        ra = build(al, ops, nxt); rk = build(key, ops, nxt); rd = build(dflt, ops, nxt) if dflt is not None else 0
+        rp = build(pl, ops, nxt)
+        n = rng.choice([-1, 0, 1, 2, 5])
+        ops += ['assoc:%d:%d:1' % (rk, ra), 'show:1', 'alistget:%d:%d:%d:2' % (rk, ra, rd), 'show:2', 'plistget:%d:%d:3' % (rp, rk), 'show:3',
+                'len:%d' % ra, 'nth:%d:%d:4' % (n, ra), 'show:4', 'nthcdr:%d:%d:5' % (n, ra), 'show:5', 'last:%d:6' % ra, 'show:6', 'show:%d' % ra]
+        pair = next((e for e in al if isinstance(e, tuple) and e[0] == key), None)
+        exp_assoc = pshow(pair)
+        exp_get = pshow(pair[1]) if pair is not None else pshow(dflt)
+        exp_pl = 'nil'
+        for i in range(0, len(pl) - 1, 2):
+            if pl[i] == key: exp_pl = pshow(pl[i + 1]); break
+        exp_nth = pshow(al[n]) if 0 <= n < len(al) else ('nil' if n >= 0 else pshow(al[0]) if al else 'nil')
+        exp_cdr = pshow(al[n:] if n > 0 else al) if n < len(al) else 'nil'
+        exp_last = pshow(al[-1:]) if al else 'nil'
+        helper_cases.append((ops, {len(ops) - 13: exp_assoc, len(ops) - 11: exp_get, len(ops) - 9: exp_pl, len(ops) - 8: 'i%d' % len(al),
+                                   len(ops) - 6: exp_nth, len(ops) - 4: exp_cdr, len(ops) - 2: exp_last, len(ops) - 1: pshow(al)}))
+    hc = Case('helpers')
+    for ops, _ in helper_cases: hc.lines.append('api ' + ' '.join(ops)); hc.nreq += 1
+    ho = core.run_side(core.TLIMPL_DEBUG, [hc], announce=True).get('helpers', [])
+    for (ops, exp), l in zip(helper_cases, ho):
+        if ' API ' not in l or l.endswith('PANIC'):
+            nv += 1
+            if nv <= 8: res.violation('api-panic', {'ops': ops, 'why': 'a list helper panicked or aborted'})
+            continue
+        got = l.split(' API ', 1)[1].split('|')
+        ncmp += 1
+        for j, e in exp.items():
+            g_ = got[j] if j < len(got) else '?'
+            gv = unhx(g_[1:]) if g_[:1] == 'v' else g_
+            if gv != e:
+                nv += 1
+                if nv <= 8: res.violation('api-list-helper', {'ops': ops, 'op': ops[j - 1] if ops[j].startswith('show') else ops[j], 'expected': e, 'got': gv,
+                                                              'why': 'alist / plist / list helper disagrees with the first-match sequence model'})
+                break
+    res.cov['list_helper_cases'] = len(helper_cases)
     # host functions: declared parameter types, optional and rest parameters, each argument evaluated once
     hitems = []
     for _ in range(tier_n(tier, 600, 15000)):
@@ -2672,7 +2765,7 @@ def check_C20(tier, seed):
     res.cov['rule'] = ('object / symbol API call sequences interpreted by the harness and by the heap model (objects are cells with identity: aliasing through cdr handles, in-place push, copying append); '
                        'after every sequence all registers are printed, iterated, compared and converted; exhaustive short sequences and random ones up to 30 operations; oracle: Python stack model for '
                        'set / set_scope / unset / get / boundp incl. a constant symbol, exact round trip of i64 / f64 (bit patterns incl. NaN, inf, -0.0) / String / bool conversions and rejection of wrong types; '
-                       'host functions with i64 / Option<i64> / rest / String / f64 parameters called with ticked arguments directly, via funcall and mapcar; correspondence with the model')
+                       'lists::assoc / alist_get (with and without default, nil-valued pairs, non-pair elements) / plist_get / length / nth / nthcdr / last on built structures against a first-match model; host functions with i64 / Option<i64> / rest / String / f64 parameters called with ticked arguments directly, via funcall and mapcar; correspondence with the model')
     res.cov['samples'] = [' '.join(API_PRELUDE + seqs[len(seqs) // 2] + API_DUMP)]
     for d in res.pending:
         res.violation('disagreement', d, no_input=not oracle_confirms(d))
